@@ -551,7 +551,18 @@ def observe_derive(folder, text, name=None, form="lf", raw=None):
     t = {"cfg": cfg, "exc": "", "obs": None, "how": f"file form {form if raw is None else 'as shipped'}", "form": form}
     sr = None
     try:
-        sr = spikeglx.Reader(f if NOBS[0] % 4 else str(f))
+        try:
+            sr = spikeglx.Reader(f if NOBS[0] % 4 else str(f))
+        except ValueError:
+            if not (cfg["typeThis"] == "nidq" and cfg.get("typeEnabled")):
+                raise
+            # the header of the nidq stream of a phase-3A rig: the unchanged Reader cannot be constructed on it (a 384-site default
+            # geometry is forced onto the nidq channels - outside this property, reported in DESIGN.md); what the library derives
+            # from the metadata is looked at through the Reader's own accessors on an object that only carries the metadata
+            sr = spikeglx.Reader.__new__(spikeglx.Reader)
+            sr.meta = spikeglx.read_meta_data(f)
+            sr.channel_conversion_sample2v = spikeglx._conversion_sample2v_from_meta(sr.meta)
+            t["how"] += ", metadata-only view"
         t["obs"] = project(sr, cfg, fstext)
     except Exception as e:
         t["exc"] = type(e).__name__
@@ -573,6 +584,8 @@ def meta_from_cfg(cfg, rnd, ns=1000):
     if cfg["typeThis"] == "nidq":
         mn, ma, xa, dw = cfg["mnmaxadw"]
         extra = {} if cfg["maxInt"] == -1 else {"imMaxInt": cfg["maxInt"]}
+        if cfg.get("typeEnabled"):
+            extra["typeEnabled"] = "imec,nidq"          # the nidq stream of a phase-3A rig
         txt, _ = metagen.make_nidq_meta(mn, ma, xa, dw, ns=ns, mn_gain=cfg["mnGain"], ma_gain=cfg["maGain"],
                                         range_max=cfg["rangeC"] // 100, extra=extra)
         return txt
